@@ -2,10 +2,11 @@ CONSTANTS
   H = 4
   NWit = 2
   MaxCalls = 3
-  PrimaryPersonas = {"honest", "lunatic", "equiv", "silent", "notfound", "bad", "flip2", "nopivot", "badpivot", "thin3", "weak3", "bound3", "future3", "past3", "malformed3", "badsig3", "lunatic3"}
+  PrimaryPersonas = {"honest", "lunatic", "equiv", "silent", "notfound", "bad", "flip2", "nopivot", "badpivot", "thin3", "weak3", "bound3", "future3", "past3", "malformed3", "badsig3", "lunatic3", "weak4bad"}
   WitnessPersonas = {"honest", "lunatic", "equiv", "silent", "notfound", "bad", "lag2", "lagcatch", "lagfuture", "flip2", "thin3", "weak3", "bound3", "future3", "malformed3", "lunatic3"}
   Modes = {"skip", "seq"}
   Roots = {1, 3}
+  WithUpdate = TRUE
   Nows = {105, 125}
   Weak_SkipTrustLevel = FALSE
   Weak_AdjacentIgnoresNextVals = FALSE
@@ -15,6 +16,7 @@ CONSTANTS
   Weak_MismatchAlsoCountsAsMatch = FALSE
   Weak_NoWitnessNeeded = FALSE
   Weak_BackwardsUnbound = FALSE
+  Weak_ReplacementHashUnchecked = FALSE
 INIT Init
 NEXT Next
 INVARIANTS TrustRootOnly StoreSound WitnessConfirmed NoConfirmationFromSilence AttackReported AttackStoresNothing StoreMonotone
